@@ -185,6 +185,8 @@ class Unit:
             for n, fields in idx.structs.items():
                 if n not in self.fi.structs:
                     self.fi.structs[n] = fields; self.struct_src[n] = "trusted view declared in translate/x_fn.py"
+            for n, vs in idx.enums.items():     # unit-variant enums of library types (e.g. atomic `Ordering`): b1012, round 9
+                self.fi.enums.setdefault(n, vs)
         for r in struct_files:      # struct declarations of other files, used as local structures
             idx = index_of(r)
             for n, fields in idx.structs.items():
